@@ -568,6 +568,8 @@ def gen_convert_bits(ctx):
                 for y in range(32):
                     ctx.run("b32_convert_bits", [f, t, pad, [x, y]], "len2")
         for _ in range(ctx.n(60, 1500)):
+            if not ctx.time_left():
+                break
             n = rng.choice([2, 3, 4, 5, 7, 8, 9, 16, 20, 32, 33, 52, 64])
             d = [rng.randrange(top) for _ in range(n)]
             ctx.run("b32_convert_bits", [f, t, pad, d], "rand")
@@ -576,6 +578,8 @@ def gen_convert_bits(ctx):
                 ctx.run("b32_convert_bits", [f, t, pad, d], "rand-oversize")
     for f, t in ((1, 1), (3, 7), (7, 3), (13, 4), (2, 16)):
         for _ in range(ctx.n(20, 300)):
+            if not ctx.time_left():
+                break
             d = [rng.randrange(1 << f) for _ in range(rng.randrange(1, 12))]
             ctx.run("b32_convert_bits", [f, t, rng.randrange(2), d], "other-widths")
     ctx.note_exhaustive("ConvertBits: all single values 0..2^f+1 for (8,5) and (5,8), both pad modes; all 32x32 symbol pairs for 5->8")
@@ -590,6 +594,8 @@ def gen_strings(ctx):
     for c in look:
         samples += [chr(c), "A" + chr(c), "a" + chr(c)]
     for _ in range(ctx.n(150, 3000)):
+        if not ctx.time_left():
+            break
         samples.append("".join(chr(rng.choice([rng.randrange(128), rng.randrange(0x250), rng.randrange(0x2000, 0x2200),
                                                 rng.randrange(0x110000)])) for _ in range(rng.randrange(1, 6))))
     for s in samples:
@@ -601,16 +607,22 @@ def gen_strings(ctx):
     for c in range(0, 0x110000, step):
         if 0xD800 <= c < 0xE000 or c == 0x3A3:
             continue
+        if not ctx.quick and not ctx.time_left():
+            ctx.exhaustive_notes.append("code point sweep stopped at U+%04X (time budget)" % c)
+            break
         ctx.run("py_lower", [chr(c)], "cp-sweep")
         ctx.run("is_string_mixed", ["a" + chr(c)], "cp-sweep")
         ctx.run("is_string_mixed", ["A" + chr(c)], "cp-sweep")
-    if not ctx.quick:
-        ctx.note_exhaustive("py_lower / islower / isupper: every non-surrogate code point")
+    else:
+        if not ctx.quick:
+            ctx.note_exhaustive("py_lower / islower / isupper: every non-surrogate code point")
 
 
 def gen_polymod(ctx):
     rng = ctx.rng
     for _ in range(ctx.n(60, 1500)):
+        if not ctx.time_left():
+            break
         n = rng.randrange(0, 40)
         v = [rng.randrange(32) for _ in range(n)]
         ctx.run("b32_polymod", [v], "rand")
@@ -652,6 +664,8 @@ def gen_bech32(ctx):
         for n in (0, 1, 2, 5, 20, 32):
             ctx.run("bech32_encode", [h, rbytes(rng, n)], "encode")
     for _ in range(ctx.n(80, 2000)):
+        if not ctx.time_left():
+            break
         h = rng.choice(HRPS)
         d = rbytes(rng, rng.choice([0, 1, 2, 3, 4, 5, 10, 20, 32, 33, 50, 64, rng.randrange(120)]))
         ctx.run("bech32_encode", [h, d], "encode-rand")
@@ -681,11 +695,15 @@ def gen_bech32(ctx):
     if ctx.quick:
         allp = rng.sample(allp, 1500)
     else:
-        ctx.note_exhaustive("Bech32: all %d double substitutions of the data part of %r" % (len(allp), s))
+        ctx.note_exhaustive("Bech32: all %d double substitutions of the data part of %r (unless the time budget ends first)" % (len(allp), s))
     for i, j, c, e in allp:
+        if not ctx.time_left():
+            break
         ctx.run("bech32_mut", [h, s, s[:i] + c + s[i + 1:j] + e + s[j + 1:]], "subst2")
     # triple and quadruple substitutions, random
     for _ in range(ctx.n(300, 20000)):
+        if not ctx.time_left():
+            break
         h = rng.choice(["a", "bc", "cosmos"])
         s = Bech32Encoder.Encode(h, rbytes(rng, rng.choice([1, 5, 20, 32, 45])))
         p = s.rfind("1")
@@ -752,6 +770,8 @@ def gen_segwit(ctx):
         s = SegwitBech32Encoder.Encode(h, v, rbytes(rng, n))
         neighbourhood(ctx, "segwit_decode", "segwit_mut", h, s, "1", CHARSET + "b1", full=(k < 1 or not ctx.quick))
     for _ in range(ctx.n(300, 20000)):
+        if not ctx.time_left():
+            break
         h = rng.choice(["bc", "tb"])
         v = rng.choice([0, 0, 1, 1, 2, 16])
         n = rng.choice([20, 32]) if v == 0 else rng.choice([2, 20, 32, 40])
@@ -789,6 +809,8 @@ def gen_cash(ctx):
         for nv, n in ((b"\x00", 20), (b"\x08", 20), (b"\xff", 0), (b"", 0), (b"", 20), (b"\x00\x01", 3), (b"\x03", 32)):
             ctx.run("cash_encode", [h, nv, rbytes(rng, n)], "encode")
     for _ in range(ctx.n(80, 2000)):
+        if not ctx.time_left():
+            break
         h = rng.choice(CASH_HRPS)
         nv = bytes([rng.randrange(256)])
         d = rbytes(rng, rng.choice([0, 1, 2, 4, 20, 24, 28, 32, 40, 48, 56, 64, rng.randrange(80)]))
@@ -808,6 +830,8 @@ def gen_cash(ctx):
         s = BchBech32Encoder.Encode(h, b"\x00", rbytes(rng, n))
         neighbourhood(ctx, "cash_decode", "cash_mut", h, s, ":", CHARSET + "b:", full=(k < 1 or not ctx.quick))
     for _ in range(ctx.n(300, 20000)):
+        if not ctx.time_left():
+            break
         h = rng.choice(["bitcoincash", "bchtest"])
         s = BchBech32Encoder.Encode(h, bytes([rng.randrange(256)]), rbytes(rng, rng.choice([20, 24, 32, 64])))
         p = s.rfind(":")
@@ -842,6 +866,8 @@ def gen_b58_wif(ctx):
             ctx.run("wif_decode", [s, nv], "crafted")
         ctx.run("b58_check_decode", [s], "crafted")
     for _ in range(ctx.n(60, 1500)):
+        if not ctx.time_left():
+            break
         k = rbytes(rng, 32)
         nv = bytes([rng.randrange(256)])
         c = rng.random() < 0.5
@@ -877,10 +903,13 @@ def gen_b58_wif(ctx):
 
 
 def generate(ctx):
-    gen_convert_bits(ctx)
-    gen_polymod(ctx)
-    gen_bech32(ctx)
-    gen_segwit(ctx)
-    gen_cash(ctx)
-    gen_b58_wif(ctx)
-    gen_strings(ctx)
+    import time
+    parts = [(gen_convert_bits, 0.08), (gen_polymod, 0.05), (gen_bech32, 0.27), (gen_segwit, 0.22), (gen_cash, 0.18),
+             (gen_b58_wif, 0.08), (gen_strings, 0.12)]
+    total = ctx.budget_s
+    for g, share in parts:
+        if not ctx.quick and total is not None:
+            # thorough tier: every family gets its share of the time budget (the sampling loops stop when it is used up)
+            ctx.budget_s = (time.time() - ctx.t0) + share * total
+        g(ctx)
+    ctx.budget_s = total
